@@ -73,18 +73,39 @@ Definition pred_mean_fill (n : nat) (TT tm : M) (mc : nvec) (fv : car) : M :=
 
 (* ------------------------------------------------------------------ covariance *)
 
-(* exact_predictive_covar AS CODED: no reference to the policy or the labels - it is
-   C01's [post_cov n KJ Ainv] with Ainv an inverse of the FULL train covariance. *)
-Definition cov_as_coded (n : nat) (KJ Ainv : M) : M := post_cov n KJ Ainv.
+Inductive policy := PMask | PFill.
 
-(* the repaired formulas (fixes_proposed/C16_covar_mask.diff): the train dimension is
-   restricted ('mask') resp. neutralised ('fill') exactly as for the mean *)
+(* the formulas exact_predictive_covar uses when targets are missing: the train dimension is
+   restricted ('mask': MaskedLinearOperator + test_train_covar[..., observed]) resp. neutralised
+   ('fill': kernel * kernel_mask, test_train_covar * mask) exactly as for the mean *)
 Definition cov_masked (n : nat) (ob : nat -> bool) (KJ Aoinv : M) : M :=
   let G := mask_cols n ob (Ksx n KJ) in
   msub (Kss n KJ) (mmul (nobs n ob) G (mmul (nobs n ob) Aoinv (mT G))).
 Definition cov_filled (n : nat) (ob : nat -> bool) (KJ Afinv : M) : M :=
   let Z := zero_cols ob (Ksx n KJ) in
   msub (Kss n KJ) (mmul n Z (mmul n Afinv (mT Z))).
+
+(* has_missing = bool(isnan(train_labels).any()) *)
+Definition has_missing (n : nat) (y : nvec) : bool := negb (forallb (is_obs y) (seq 0 n)).
+
+(* exact_predictive_covar AS CODED NOW (gpytorch/models/exact_prediction_strategies.py:368-441,
+   after "fix: posterior covariance ignores missing observations ..."): under a NaN policy with at
+   least one missing target the exact solve is used on the masked / filled operator; otherwise
+   (no NaN) it is C01's [post_cov] with an inverse of the full train covariance (the
+   fast_pred_var root path equals it for any root: C01 cov_root_correct).
+   [Ainv], [Aoinv], [Afinv]: any inverses of the full / masked / filled train covariance. *)
+Definition pred_cov (n : nat) (p : policy) (KJ Ainv Aoinv Afinv : M) (y : nvec) : M :=
+  if has_missing n y then
+    match p with
+    | PMask => cov_masked n (is_obs y) KJ Aoinv
+    | PFill => cov_filled n (is_obs y) KJ Afinv
+    end
+  else post_cov n KJ Ainv.
+
+(* MODEL OF THE OLD CODE (before the fix; kept to document that the masking is necessary and to
+   label a regression): no reference to the policy or the labels - C01's [post_cov n KJ Ainv]
+   with Ainv an inverse of the FULL train covariance, NaN rows included. *)
+Definition cov_unmasked_old (n : nat) (KJ Ainv : M) : M := post_cov n KJ Ainv.
 
 (* ------------------------------------------------------------------ deletion (the spec) *)
 
@@ -103,9 +124,23 @@ Definition del_mean (n : nat) (KJ muJ Aoinv : M) (y : nvec) : M :=
 Definition del_cov (n : nat) (ob : nat -> bool) (KJ Aoinv : M) : M :=
   post_cov (nobs n ob) (KJ_del n ob KJ) Aoinv.
 
+(* ------------------------------------------------------------------ batch mode under 'mask' *)
+
+(* 'mask' with an explicit mask [ob] (batch mode: _get_observed is the AND over the batch elements,
+   so an element may have observed targets that are masked as well).
+   _mean_cache: mean_cache = full_like(nan); mean_cache[..., observed] = solve(offset[..., observed]) *)
+Definition mean_cache_mask_ob (n : nat) (ob : nat -> bool) (Aoinv : M) (r : nvec) : nvec :=
+  let x := mmul (nobs n ob) Aoinv (mask_rows n ob (vals 0 r)) in
+  fun i => if ob i then Some (x (rank ob i) O) else None.
+(* the data set with the index set {i | ob i = false} deleted *)
+Definition del_mean_ob (n : nat) (ob : nat -> bool) (KJ muJ Aoinv : M) (y : nvec) : M :=
+  post_mean (nobs n ob) (KJ_del n ob KJ) (mu_del n ob muJ) Aoinv (mask_rows n ob (vals 0 y)).
+(* _get_observed over a batch of B target vectors: observed iff observed in EVERY element *)
+Definition batch_observed (B : nat) (ys : nat -> nvec) : nat -> bool :=
+  fun i => forallb (fun b => is_obs (ys b) i) (seq 0 B).
+
 (* ------------------------------------------------------------------ policy history *)
 
-Inductive policy := PMask | PFill.
 (* the prediction strategy's memo: _mean_cache is keyed by the policy *)
 Definition memo := policy -> option nvec.
 Definition memo_empty : memo := fun _ => None.
@@ -160,6 +195,15 @@ Definition elp_del (n : nat) (half : car) (y : nvec) (m v s lg : nat -> car) : n
              (gather (sel l) idx (fun i _ => v i) a O) (gather (sel l) idx (fun i _ => s i) a O)
              (gather (sel l) idx (fun i _ => lg i) a O).
 
+(* ANY per-point term under 'fill' (expected_log_prob, log_marginal, ...): the code replaces NaN
+   targets by the fill value, evaluates a pointwise function [g target index] and multiplies by
+   ~missing.  [g] is arbitrary. *)
+Definition pointwise_fill (fv : car) (y : nvec) (g : car -> nat -> car) : nat -> car :=
+  fun i => g (vals fv y i O) i * (if is_obs y i then 1 else 0).
+(* the same function on the deleted data set: targets and per-point inputs gathered *)
+Definition pointwise_del (n : nat) (y : nvec) (g : car -> nat -> car) : nat -> car :=
+  let l := obs_list n (is_obs y) in fun a => g (y_del n y a O) (sel l a).
+
 End Missing.
 
 (* ---- executable instance ------------------------------------------------------------- *)
@@ -176,7 +220,8 @@ Definition e_logprob (q d : Qc) (k : nat) : expr :=
 (* case = (n, t, KJ rows, muJ, S rows, y with NaNs)
    result: 0 if the masked train covariance is singular, else
      1; k; deletion mean (t); deletion cov (t*t);
-     mean as coded under 'mask' (t); repaired 'mask' covariance (t*t);
+     mean as coded under 'mask' (t); covariance as coded under 'mask' (t*t)
+       (no NaN: the masked operator IS the full train covariance, so Aoinv serves as Ainv);
      expr: log_prob of the masked marginal (un-normalised MLL) *)
 Definition run_missing
   (c : nat * nat * list (list Qc) * list Qc * list (list Qc) * list (option Qc)) : list Z :=
@@ -194,13 +239,33 @@ Definition run_missing
       1%Z :: Z.of_nat k ::
       ser_mat t 1 (del_mean n KJ muJ Aoinv y) ++ ser_mat t t (del_cov n ob KJ Aoinv) ++
       ser_mat t 1 (pred_mean_mask n TT tm (mean_cache_mask n Aoinv r)) ++
-      ser_mat t t (cov_masked n ob KJ Aoinv) ++
+      ser_mat t t (pred_cov n PMask KJ Aoinv Aoinv mzero y) ++
       ser_expr (e_logprob (mll_quad_mask n muJ Aoinv y) (det k Ao) k)
   | None => [0%Z]
   end.
 
+(* the specification alone (deletion) - what every implementation output is compared with.
+   Same case format; result: 0 if singular, else 1; k; deletion mean (t); deletion cov (t*t);
+   expr: log_prob of the deleted data set's marginal (un-normalised MLL) *)
+Definition run_deletion
+  (c : nat * nat * list (list Qc) * list Qc * list (list Qc) * list (option Qc)) : list Z :=
+  let '(n, t, kj, mu, s, yl) := c in
+  let KJ : @M QcF := @of_list QcF kj in let muJ : @M QcF := @vec_of_list QcF mu in
+  let S : @M QcF := @of_list QcF s in let y := nvec_of_list yl in
+  let ob := is_obs y in
+  let k := nobs n ob in
+  let Ad := mat k k (train_covar (KJ_del n ob KJ) (S_del n ob S)) in
+  match inv_checked k Ad with
+  | Some Adinv =>
+      1%Z :: Z.of_nat k ::
+      ser_mat t 1 (del_mean n KJ muJ Adinv y) ++ ser_mat t t (del_cov n ob KJ Adinv) ++
+      ser_expr (e_logprob (mll_quad_del n muJ Adinv y) (det k Ad) k)
+  | None => [0%Z]
+  end.
+
 (* the 'fill' code path and policy histories.  case = (..., fill value); result: 0 / 1;
-   mean as coded under 'fill' (t); repaired 'fill' covariance (t*t); mean of the last
+   mean as coded under 'fill' (t); covariance as coded under 'fill' (t*t; no NaN: the
+   filled kernel IS the full train covariance, so Afinv serves as Ainv); mean of the last
    prediction after the histories [fill;mask] and [mask;fill;mask;fill] (2t) *)
 Definition run_fill
   (c : nat * nat * list (list Qc) * list Qc * list (list Qc) * list (option Qc) * Qc) : list Z :=
@@ -223,18 +288,19 @@ Definition run_fill
                     | [] => mzero end in
       1%Z ::
       ser_mat t 1 (pred_mean_fill n TT tm (mean_cache_fill n Afinv r fv) fv) ++
-      ser_mat t t (cov_filled n ob KJ Afinv) ++
+      ser_mat t t (pred_cov n PFill KJ Afinv Aoinv Afinv y) ++
       ser_mat t 1 (last [PFill; PMask]) ++ ser_mat t 1 (last [PMask; PFill; PMask; PFill])
   | _, _ => [0%Z]
   end.
 
-(* exact_predictive_covar as coded (no mask): independent of the targets.
+(* the OLD exact_predictive_covar (no mask; used only to label a regression and to decide which
+   cases are non-trivial): independent of the targets.
    case = (n, t, KJ rows, S rows); result 0 / 1; covariance (t*t) *)
 Definition run_coded_cov (c : nat * nat * list (list Qc) * list (list Qc)) : list Z :=
   let '(n, t, kj, s) := c in
   let KJ : @M QcF := @of_list QcF kj in let S : @M QcF := @of_list QcF s in
   match inv_checked n (mat n n (train_covar KJ S)) with
-  | Some Ainv => 1%Z :: ser_mat t t (cov_as_coded n KJ (mat n n Ainv))
+  | Some Ainv => 1%Z :: ser_mat t t (cov_unmasked_old n KJ (mat n n Ainv))
   | None => [0%Z]
   end.
 
